@@ -24,7 +24,7 @@ var solverCmds = map[string]func(file string, perMs int) []string{
 	"z3new": func(f string, ms int) []string { return []string{"z3-new", "-smt2", fmt.Sprintf("-t:%d", ms), f} },
 	"z3":    func(f string, ms int) []string { return []string{"z3", "-smt2", fmt.Sprintf("-t:%d", ms), f} },
 	"cvc5": func(f string, ms int) []string {
-		return []string{"cvc5", "--incremental", "--strings-exp", fmt.Sprintf("--tlimit-per=%d", ms), f}
+		return []string{"cvc5", "--lang=smt2", "--incremental", "--strings-exp", fmt.Sprintf("--tlimit-per=%d", ms), f}
 	},
 }
 
@@ -80,9 +80,12 @@ func (e *Engine) Solve(vc *FnVC, dir string, perMs int, solvers []string, agree 
 	}
 	script := vc.Script(perMs, false)
 	file := filepath.Join(dir, sanitize(vc.key)+".smt2")
-	if err := os.WriteFile(file, []byte(script), 0o644); err != nil {
+	z3script := strings.Replace(strings.Replace(script, ";;SMOKE-BEGIN", "(set-option :timeout 1500)", 1), ";;SMOKE-END", fmt.Sprintf("(set-option :timeout %d)", perMs), 1)
+	cvscript := strings.Replace(strings.Replace(script, ";;SMOKE-BEGIN", "(set-option :tlimit-per 1500)", 1), ";;SMOKE-END", fmt.Sprintf("(set-option :tlimit-per %d)", perMs), 1)
+	if err := os.WriteFile(file, []byte(z3script), 0o644); err != nil {
 		panic(err)
 	}
+	os.WriteFile(file+".cvc5", []byte(cvscript), 0o644)
 	res.File = file
 	t0 := time.Now()
 	total := perMs/1000*len(vc.obls) + 30
@@ -99,7 +102,11 @@ func (e *Engine) Solve(vc *FnVC, dir string, perMs int, solvers []string, agree 
 		if !undecided && !agree {
 			break
 		}
-		run := runSolver(s, file, perMs, total)
+		f := file
+		if s == "cvc5" {
+			f = file + ".cvc5"
+		}
+		run := runSolver(s, f, perMs, total)
 		res.Runs = append(res.Runs, run)
 		if run.smoke != "" && (res.Smoke == "" || res.Smoke == "unknown") {
 			res.Smoke = run.smoke
